@@ -1262,7 +1262,7 @@ pub fn property() -> Property {
         ],
         panic_clause: "C13.f-nopanic",
         livelock_clause: "C13.f-livelock",
-        rule: "one run = one seeded execution of writer → simulated file → reader: record list (BED: common number k of auxiliary columns; GFF: dialect, attribute multimap), the hash iteration order of every GFF attribute map (owned by rejection sampling over RandomState), write/read fragmentation regime, EINTR, and one storage event (identity, comment lines, one targeted field damage, byte corruption, cut) all drawn from one choice stream. Non-trivial = at least one record AND at least one fault, permuted hash order or storage event actually fired. Distinct = distinct schedule signature: hash of scenario, storage event and the sequence of (call kind, requested-size class, outcome class) of every endpoint call.",
+        rule: "one run = one seeded execution of writer → simulated file → reader: record list (BED: common number k of auxiliary columns; GFF: dialect, attribute multimap), the hash iteration order of every GFF attribute map (owned by rejection sampling over RandomState), write/read fragmentation regime, EINTR, and one storage event (identity, comment lines, one targeted field damage, byte corruption, cut) all drawn from one choice stream. Non-trivial = at least one record AND at least one fault, permuted hash order or storage event actually fired. Distinct = distinct schedule signature: hash of scenario, storage event and the sequence of (call kind, requested-size class, outcome class) of every endpoint call. bed-partitions plays every partition of one tiny BED file into read() chunks and of the writer's output into write() chunks; one sweep counts as one run.",
         real: &["bio::io::bed::{Writer, Reader, Records, Record}", "bio::io::gff::{Writer, Reader, Records, Record, Phase, GffType}", "csv / csv-core (reader and writer)", "regex (attribute column)", "multimap::MultiMap over std RandomState"],
         stubs: &["the OS file/pipe under the writer (SimWrite: short writes, EINTR)", "the OS file/pipe under the reader (SimRead: short reads, EINTR)", "the editor that inserts comment lines", "media fault / bad edit (targeted field damage, byte corruption, cut)"],
         assumptions: &[
